@@ -14,8 +14,9 @@ func init() { register("C10", "other", checkC10) }
 
 func checkC10(w *World, r *Result) {
 	r.Explanation = "Decides structural necessary conditions on analysis/enums.go: AGR-C10m a member is appended once per scope name under exactly the three filters (is a constant, its type is named, no opt-out comment), keyed by the constant's own named type, carrying the constant and its own comment; PTH-C10a every store of true into IsIota is dominated by the integer-kind test, by the per-member 'not an int64 or negative => return' test, by the gap test against max+1, by a duplicate rejection, and is preceded on its path by the sort of the members by value; the sort helper swaps every parallel slice and compares the values; AGR-C10b the population the iota test counts (exported constants) is the population positional consumers enumerate (Dart names/values, randdata choices skip exactly the unexported ones). Does not decide: the trailing-comment lookup against the syntax tree, same-name enums in two packages, exactness of values (go/constant's job)."
-	r.Rules = []string{"AGR-C10m membership filters", "PTH-C10a iota flag dominance", "AGR-C10s sort helper", "AGR-C10b population agreement"}
+	r.Rules = []string{"AGR-C10m membership filters", "PTH-C10a iota flag dominance", "AGR-C10s sort helper", "SORT-PAR", "MEMO-KEY", "AGR-C10b population agreement"}
 	checkEnumMembers(w, r)
+	memoKeyRule(w, r, func(rel string) bool { return rel == "analysis" })
 	checkSetIsIota(w, r)
 	checkEnumConsumers(w, r)
 }
@@ -413,9 +414,13 @@ func isOkOfInt64(info *types.Info, loop *ast.RangeStmt, id *ast.Ident) bool {
 
 // checkSortHelper: the sort.Interface used by setIsIota swaps all parallel slices and compares values.
 func checkSortHelper(w *World, r *Result) {
+	// whatever the helper, a sort.Slice comparator must read the slice it sorts
+	iota := w.MustFunc("analysis.(*Enum).setIsIota")
+	nslice := sortParallelRule(w, r, func(fi *FuncInfo) bool { return fi == iota })
 	t, ok := w.ByRel["analysis"].Types.Scope().Lookup("sortBy").(*types.TypeName)
 	if !ok {
-		r.warn("helper type sortBy not found: AGR-C10s skipped")
+		// no sort.Interface helper: the members must be sorted by a sort.Slice over e.Members itself
+		r.cond(nslice > 0, "AGR-C10s", iota.Name, "members sorted by value", fnPos(w, iota), "sorted by sort.Slice (comparator checked by SORT-PAR)", "setIsIota neither uses the sortBy helper nor sort.Slice: members are not sorted by increasing value before IsIota is set, while consumers use positions as values")
 		return
 	}
 	st, ok := t.Type().Underlying().(*types.Struct)
